@@ -130,6 +130,24 @@ fn allowed_ref_nonempty(list: &[String], peer: Ipv4Addr) -> bool {
     list.iter().filter_map(|e| parse_entry(e)).any(|(n, m)| u32::from(peer) & m == n)
 }
 
+/// Listener ports come from a private range below the kernel's ephemeral range (32768+), partitioned by leg and shard:
+/// a port picked by bind-and-release can be in use as the *source* port of some other shard's client socket, which
+/// makes a wildcard listener fail with "address in use".
+struct Ports {
+    base: u16,
+    next: u16,
+}
+impl Ports {
+    fn new(a: &Args, leg_slot: u64) -> Ports {
+        let slot = (leg_slot * 16 + a.shard % 16) as u16;
+        Ports { base: 10_000 + slot * 800, next: (std::process::id() % 800) as u16 }
+    }
+    fn pick(&mut self) -> u16 {
+        self.next = (self.next + 1) % 800;
+        self.base + self.next
+    }
+}
+
 const ENTRIES: &[&str] = &["127.0.0.1", "127.0.0.5", "127.0.0.1/32", "127.0.0.0/30", "127.0.1.0/24", "127.1.0.0/16", "127.0.1.128/25", "10.0.0.0/8", "192.168.7.9", "::1/128", "127.0.0.0/8", "0.0.0.0/0"];
 const PEERS: &[[u8; 4]] = &[[127, 0, 0, 1], [127, 0, 0, 2], [127, 0, 0, 3], [127, 0, 0, 4], [127, 0, 0, 5], [127, 0, 1, 0], [127, 0, 1, 127], [127, 0, 1, 128], [127, 0, 1, 255], [127, 0, 2, 0], [127, 1, 0, 0], [127, 1, 255, 255], [127, 2, 0, 0], [127, 200, 3, 4]];
 
@@ -162,16 +180,14 @@ fn run_v6(a: &Args) -> Report {
     }
     let exporters = a.budget(24, 2000);
     let runtime = tokio::runtime::Builder::new_multi_thread().worker_threads(2).enable_all().build().expect("tokio runtime");
+    let mut ports = Ports::new(a, 1);
     for _ in 0..exporters {
         let nent = *r.pick(&[0usize, 1, 1, 1, 2, 3]);
         let mut list: Vec<String> = Vec::new();
         for _ in 0..nent {
             list.push(r.pick(ENTRIES6).to_string());
         }
-        let port = {
-            let l = TcpListener::bind((v6, 0)).unwrap();
-            l.local_addr().unwrap().port()
-        };
+        let port = ports.pick();
         let dst = SocketAddr::new(std::net::IpAddr::V6(v6), port);
         // half of the exporters listen on the unspecified IPv6 address: on a dual-stack host IPv4 clients reach that
         // listener too (the socket reports them as ::ffff:a.b.c.d)
@@ -205,10 +221,7 @@ fn run_v6(a: &Args) -> Report {
             if built.is_ok() {
                 break;
             }
-            port = {
-                let l = TcpListener::bind((v6, 0)).unwrap();
-                l.local_addr().unwrap().port()
-            };
+            port = ports.pick();
             dst = SocketAddr::new(std::net::IpAddr::V6(v6), port);
             let listen = if dual { SocketAddr::new(std::net::IpAddr::V6(std::net::Ipv6Addr::UNSPECIFIED), port) } else { dst };
             let mut nb = PrometheusBuilder::new().with_http_listener(listen);
@@ -292,6 +305,7 @@ pub fn run(a: &Args) -> Option<Report> {
     let mut r = Rng::new(a.shard_seed());
     let exporters = a.budget(24, 2000);
     let runtime = tokio::runtime::Builder::new_multi_thread().worker_threads(2).enable_all().build().expect("tokio runtime");
+    let mut ports = Ports::new(a, 0);
     for _ in 0..exporters {
         // allowlist
         let nent = *r.pick(&[0usize, 1, 1, 2, 3, 5]);
@@ -299,10 +313,7 @@ pub fn run(a: &Args) -> Option<Report> {
         for _ in 0..nent {
             list.push(r.pick(ENTRIES).to_string());
         }
-        let port = {
-            let l = TcpListener::bind("127.0.0.1:0").unwrap();
-            l.local_addr().unwrap().port()
-        };
+        let port = ports.pick();
         let dst = SocketAddrV4::new(Ipv4Addr::new(127, 0, 0, 1), port);
         let mut b = PrometheusBuilder::new().with_http_listener(SocketAddr::V4(SocketAddrV4::new(Ipv4Addr::new(0, 0, 0, 0), port)));
         let mut build_err = None;
@@ -336,10 +347,7 @@ pub fn run(a: &Args) -> Option<Report> {
                 break;
             }
             // the port picked a moment ago was taken in the meantime (other shards use ephemeral ports too): pick again
-            port = {
-                let l = TcpListener::bind("127.0.0.1:0").unwrap();
-                l.local_addr().unwrap().port()
-            };
+            port = ports.pick();
             dst = SocketAddrV4::new(Ipv4Addr::new(127, 0, 0, 1), port);
             let mut nb = PrometheusBuilder::new().with_http_listener(SocketAddr::V4(SocketAddrV4::new(Ipv4Addr::new(0, 0, 0, 0), port)));
             for e in &list {
